@@ -73,8 +73,10 @@ Proof. split; vm_compute; reflexivity. Qed.
     steps, foreign Pods, kill / delete, injected failures and conflicts): every Pod create the
     controller ever issues - whatever its outcome - is for the task of an index of the Job's
     spec with a retry number in [0, maxAttempts).  Names are unique in the API, so no index
-    ever gets more than maxAttempts tasks.  (That the number is the *next* one, and that the
-    previous attempt is finished, depends on what the caches show: findings F4, F17.) *)
+    ever has more than maxAttempts tasks *at the same time*.  (That the number is the *next*
+    one, that the previous attempt is finished, and that a name is not used a second time
+    after its Pod has gone depend on what the caches show: findings F4, F17; see
+    c08_attempts_bounded_refuted below.) *)
 Theorem c08_created_names_bounded :
   forall cfg j0 now ops n o,
     let w := jrun_world cfg (init_jworld j0 now) ops in
@@ -92,3 +94,31 @@ Example c08_history_nonvacuous :
              [JSync; JAdvanceJob 5; JAdvancePods 5; JKubelet "j-aaaaaa-0" KFail; JAdvancePods 5; JSync; JAdvanceJob 5] in
   snd (fst (fst (jstep cfg w JSync))) = [ACreate "j-aaaaaa-1" 0; AUpdateStatus 0].
 Proof. vm_compute. reflexivity. Qed.
+
+
+(** REFUTED on the faithful model (finding F17): "never more than maxAttempts attempts per
+    index" is false over histories with a stale Job cache.  maxAttempts = 1; the first pass
+    creates attempt 0 and records it, but the Job cache never sees that status; the Pod
+    fails and is removed; the next pass, judging by the stale Job (no task recorded) and the
+    current Pod cache (no Pod), creates attempt 0 a second time, and the API accepts it.  The
+    same history is the corpus case F17-stale-job-cache-recreates-attempt of the job stream. *)
+Fixpoint jrun_acts (cfg : jcfg) (w : jworld) (ops : list jop) : list action :=
+  match ops with
+  | [] => []
+  | o :: r => let '(w', acts, _, _) := jstep cfg w o in acts ++ jrun_acts cfg w' r
+  end.
+Definition accepted_creates (acts : list action) : list string :=
+  flat_map (fun a => match a with ACreate n 0 => [n] | _ => [] end) acts.
+Theorem c08_attempts_bounded_refuted :
+  exists cfg j0 now ops,
+    j_indexes j0 = ["aaaaaa"%string] /\ j_max_attempts j0 = 1 /\
+    (Z.of_nat (List.length (accepted_creates (jrun_acts cfg (init_jworld j0 now) ops))) > j_max_attempts j0).
+Proof.
+  exists (mkCfg (Some 900) (Some 900) (Some 3600)),
+    (mkJob ["aaaaaa"%string] false AllSuccessful 1 0 false false None false None None false true None (Some 10)
+           [] 0 0 None (CWaiting WPendingCreation) PhStarting SWaiting), 100,
+    [JSync; JAdvancePods 9; JKubelet "j-aaaaaa-0" KSchedule; JKubelet "j-aaaaaa-0" KRun; JKubelet "j-aaaaaa-0" KFail;
+     JKubelet "j-aaaaaa-0" KVanish; JAdvancePods 9; JSync].
+  vm_compute. repeat split; reflexivity.
+Qed.
+Print Assumptions c08_attempts_bounded_refuted.
